@@ -133,3 +133,25 @@ Definition check_send_ll (c : nat * N * bytes * list llpdu) : bool :=
   let '(mtu, cid, sdu, obs) := c in lls_eqb (send_sdu_ll mtu cid sdu) obs.
 Definition check_recv_ll (c : list llpdu * list (N * bytes)) : bool :=
   let '(ps, obs) := c in outs_eqb (fst (recv_all_ll rx_init ps)) obs.
+
+(** ---- MTU bookkeeping of the layer (configure / set_local_mtu / set_remote_mtu) ----
+    Fragmentation is driven by [remote_mtu]; [set_remote_mtu] also raises [local_mtu]. *)
+Record mtus := { local_mtu : nat; remote_mtu : nat }.
+Definition mtus_init : mtus := {| local_mtu := 23; remote_mtu := 23 |}.
+Inductive mtu_op := SetLocal (m : nat) | SetRemote (m : nat).
+Definition mtu_step (s : mtus) (o : mtu_op) : mtus :=
+  match o with
+  | SetLocal m => {| local_mtu := m; remote_mtu := remote_mtu s |}
+  | SetRemote m => {| local_mtu := if local_mtu s <? m then m else local_mtu s; remote_mtu := m |}
+  end.
+Definition mtu_run (ops : list mtu_op) : mtus := fold_left mtu_step ops mtus_init.
+(** what the layer emits for an SDU after a history of MTU updates *)
+Definition send_after (ops : list mtu_op) (cid : N) (data : bytes) : list frag :=
+  send_sdu (remote_mtu (mtu_run ops)) cid data.
+
+Definition mtu_op_of (x : bool * nat) : mtu_op := if fst x then SetLocal (snd x) else SetRemote (snd x).
+(** case: (ops as (is_local, value), cid, sdu, observed fragments, observed local mtu) *)
+Definition check_send_after (c : list (bool * nat) * N * bytes * list frag * nat) : bool :=
+  let '(ops, cid, sdu, obs, lmtu) := c in
+  frags_eqb (send_after (map mtu_op_of ops) cid sdu) obs
+  && Nat.eqb (local_mtu (mtu_run (map mtu_op_of ops))) lmtu.
